@@ -762,6 +762,12 @@ def run(ck):
     c01.r6(ck, rule="C02-R3")      # the context counts anchoring and trimming rest on are counted from the line markers
     r4(ck)
     r6_offset_bookkeeping(ck)
+    # R7: a hunk is tried with the view of the level being tried (drawn from the level range, or the recorded one on the way back): a
+    # test made on a view of another level (e.g. "longer than the file" on the untrimmed hunk, before the loop) gives up on a hunk
+    # that matches once trimmed - C20-R1 recorded here
+    from . import c20 as _c20
+    from ..framework import RuleAlias
+    _c20.r1(RuleAlias(ck, lambda r: "C02-R7" if r == "C20-R1" else None))
 
 
 def r6_offset_bookkeeping(ck, rule="C02-R6"):
